@@ -211,6 +211,16 @@ func c01Run(c *core.Ctx) {
 			check("let s = "+lit+";\nprint(s.length, s, "+q+f+q+" + s);\nif (s == "+lit+") { print(1) } else { print(2) }", false, 30)
 		}
 	}
+	// (ii-e) identifier spellings in every position a name can take
+	for ii, name := range gen.Identifiers() {
+		if !c.Mine(int64(ii)) || c.Tick() {
+			continue
+		}
+		for _, src := range gen.IdentPrograms(name) {
+			c.Inc("identifier_programs")
+			check(src, true, 40)
+		}
+	}
 	// (ii-d) scale family: one shape per size around typical thresholds
 	for i, sp := range gen.Scale(c.Thorough()) {
 		if !c.Mine(int64(i)) || c.Tick() {
